@@ -529,6 +529,10 @@ def main(argv):
         tmp = os.path.join(EVIDENCE_DIR, ".%s.json.tmp" % pid)
         json.dump(evidence, open(tmp, "w"), indent=1, sort_keys=False)
         os.replace(tmp, os.path.join(EVIDENCE_DIR, "%s.json" % pid))
+        if tier == "thorough":
+            # the record of the last complete thorough run is kept beside the file that every run rewrites
+            os.makedirs(os.path.join(EVIDENCE_DIR, "thorough"), exist_ok=True)
+            shutil.copyfile(os.path.join(EVIDENCE_DIR, "%s.json" % pid), os.path.join(EVIDENCE_DIR, "thorough", "%s.json" % pid))
     if not a.keep_work:
         shutil.rmtree(workdir, ignore_errors=True)
         try:
